@@ -12,6 +12,7 @@ THEOREMS = ['C10_result_wf', 'C10_connect_left', 'C10_left_induced_assignment', 
             'C10_connect_left_wrapper', 'C10_connect_right_wrapper', 'C10_connect_inputs_wrapper',
             'C10_extend_circuit_left', 'C10_extend_circuit_right', 'C10_add_circuit',
             'C10_block_extract', 'C10_nub_first_nodup', 'C10_block_into_circuit_spec',
+            'C10_connect_left_total', 'C10_prefix_injective',
             'C10_example_left', 'C10_example_right']
 PARTIAL = {}
 LEVEL_TEXT = ('proved for the model of connect_circuit in both directions and for connect_left / connect_right / '
@@ -29,7 +30,7 @@ LEVEL_TEXT = ('proved for the model of connect_circuit in both directions and fo
               'gates are not labels of base; when a block name is given, the block exists, Block.into_circuit returns a '
               'well formed circuit whose inputs/outputs are the renamed inputs/outputs of the attached circuit and in '
               'which every gate of the attached circuit (its outputs in particular) has the value it has in the '
-              'attached circuit, as a function of the attached circuit\'s inputs (both directions). The attached '
+              'attached circuit, as a function of the attached circuit\'s inputs (both directions); a LEFT connection is total: it returns normally whenever the arguments pass the documented checks and no copied gate label or block name clashes with one of base. The attached '
               'circuit is unmodified because the model is purely functional; the implementation side of that '
               'statement, and the tie model = code, come from the exact state correspondence after every call of '
               'generated composition histories and from the brute-force oracle')
@@ -38,8 +39,9 @@ LEVEL_NOTE = ('Coq kernel + vm_compute (examples); hand-written model Model/Conn
               'Block.into_circuit skips inputs already present), Model/Sem.v (Eval), Model/Traverse.v (top_sort), '
               'Proofs/WFConnect*.v (C02) for well-formedness. Hypotheses: WF base, WF other (only these for the '
               'semantic statements); inputs_nullary base additionally for WF of a right connection; inputs_nullary of '
-              'both for block extraction (through C02). The theorems speak about normal returns only: a label clash, '
-              'a missing connector, etc. give Err in the model and an exception in the code (no totality theorem). In a '
+              'both for block extraction (through C02). The semantic theorems speak about normal returns: a label clash, '
+              'a missing connector, etc. give Err in the model and an exception in the code; totality is proved for the left '
+              'connection (C10_connect_left_total), not for the right one. In a '
               'right connection with a repeated connector of the attached circuit only its LAST pair is connected (Python '
               'dict semantics of `mapping`); the theorem is stated through build_mapping and is exact about that')
 TECHNIQUE = ('Coq proof: loop invariant over top_sort(other) with the processed prefix (structure theorem: which gate '
